@@ -170,7 +170,13 @@ class G:
         return {'t': 'special', 's': self.rng.choice(SPECIALS)}
 
     def c_symbol(self):
-        return {'t': 'symbol', 'name': self.rng.choice(SYMBOL_MACROS), 'term': self.rng.choice(['{}', ' ', '\\ ', '{} '])}
+        n = {'t': 'symbol', 'name': self.rng.choice(SYMBOL_MACROS), 'term': self.rng.choice(['{}', ' ', '\\ ', '{} '])}
+        if self.rng.random() < 0.12:
+            # a control word ends at the first character that is no ASCII letter: \L directly followed by 'ó…'
+            n['term'] = ''
+            n['tail'] = self.rng.choice(['ó', 'é', 'ß', 'ж', 'ü'])
+            n['tailword'] = self.names.word()
+        return n
 
     def c_accent(self):
         name, letter = self.rng.choice(VALID_ACCENTS)
@@ -479,6 +485,8 @@ def r_special(n, r):
     r.emit(n['s'])
 def r_symbol(n, r):
     r.emit(n['name'] + n['term'])
+    if n.get('tail'):
+        r.emit(n['tail']); r.word(n['tailword'])
 def r_accent(n, r):
     if n['braced']:
         r.emit(n['name'] + '{' + n['letter'] + n.get('rest', '') + '}')
